@@ -98,9 +98,13 @@ func (p *Provider) start(ctx context.Context, ammoFile afero.File) error {
 	return nil
 }
 
+// payloadJSON keeps the numbers of a payload as written (json.Number): decoded into float64 an int64 / uint64
+// beyond 2^53 is rounded (or pushed out of range) before the gun interprets the payload against the input type.
+var payloadJSON = jsoniter.Config{EscapeHTML: true, UseNumber: true}.Froze()
+
 func decodeAmmo(jsonDoc []byte, am *ammo.Ammo) (*ammo.Ammo, error) {
 	var ammo ammo.Ammo
-	err := jsoniter.Unmarshal(jsonDoc, &ammo)
+	err := payloadJSON.Unmarshal(jsonDoc, &ammo)
 	if err != nil {
 		return am, errors.WithStack(err)
 	}
